@@ -271,9 +271,15 @@ impl Display for Expr {
             if let Some(ref left) = self.left {
                 fmt.write_str(&left.to_string())?;
             }
+            if let Some(ref args) = self.args {
+                for arg in args {
+                    fmt.write_str(", ")?;
+                    fmt.write_str(&arg.to_string())?;
+                }
+            }
             fmt.write_char(')')?;
         } else if let Some(ref left) = self.left {
-            fmt.write_str(&left.to_string())?;
+            Self::fmt_operand(left, fmt)?;
         }
 
         if let Some(ref field) = self.field {
@@ -284,10 +290,70 @@ impl Display for Expr {
             fmt.write_str(val)?;
         }
 
+        // the text is used as a cache / buffer key, so it has to tell apart expressions
+        // that differ only in their operator or in the placement of brackets
+        if let Some(ref arithmetic_op) = self.arithmetic_op {
+            fmt.write_str(match arithmetic_op {
+                ArithmeticOp::Add => " + ",
+                ArithmeticOp::Subtract => " - ",
+                ArithmeticOp::Multiply => " * ",
+                ArithmeticOp::Divide => " / ",
+                ArithmeticOp::Modulo => " % ",
+            })?;
+        }
+
+        if let Some(ref logical_op) = self.logical_op {
+            fmt.write_str(match logical_op {
+                LogicalOp::And => " and ",
+                LogicalOp::Or => " or ",
+            })?;
+        }
+
+        if let Some(ref op) = self.op {
+            fmt.write_str(match op {
+                Op::Eq => " = ",
+                Op::Ne => " != ",
+                Op::Eeq => " === ",
+                Op::Ene => " !== ",
+                Op::Gt => " > ",
+                Op::Gte => " >= ",
+                Op::Lt => " < ",
+                Op::Lte => " <= ",
+                Op::Rx => " =~ ",
+                Op::NotRx => " !=~ ",
+                Op::Like => " like ",
+                Op::NotLike => " notlike ",
+                Op::Between => " between ",
+                Op::NotBetween => " notbetween ",
+            })?;
+        }
+
         if let Some(ref right) = self.right {
-            fmt.write_str(&right.to_string())?;
+            if self.function.is_some() {
+                fmt.write_str(&right.to_string())?;
+            } else {
+                Self::fmt_operand(right, fmt)?;
+            }
         }
 
         Ok(())
+    }
+}
+
+impl Expr {
+    /// Writes an operand of a binary expression, bracketing it when it is a binary expression itself
+    fn fmt_operand(operand: &Expr, fmt: &mut Formatter) -> fmt::Result {
+        use std::fmt::Write;
+
+        let is_binary = operand.function.is_none()
+            && (operand.arithmetic_op.is_some() || operand.logical_op.is_some() || operand.op.is_some());
+
+        if is_binary {
+            fmt.write_char('(')?;
+            fmt.write_str(&operand.to_string())?;
+            fmt.write_char(')')
+        } else {
+            fmt.write_str(&operand.to_string())
+        }
     }
 }
